@@ -18,6 +18,7 @@ import (
 	"bytes"
 	"context"
 	"fmt"
+	"strings"
 	"sync"
 
 	"github.com/openGemini/openGemini/engine/hybridqp"
@@ -824,6 +825,15 @@ func (trans *FillTransform) nextPrevWindow(c Chunk, intervalIndex int) {
 	for i := range trans.updatePrevWindowFunc {
 		trans.updatePrevWindowFunc[i](c, &trans.prevWindow, trans.prevValues, i)
 	}
+}
+
+// keepFillValue: a value that outlives the chunk it was read from (a string value of a chunk
+// shares the chunk's buffer, which is reused).
+func keepFillValue(v interface{}) interface{} {
+	if s, ok := v.(string); ok {
+		return strings.Clone(s)
+	}
+	return v
 }
 
 func (trans *FillTransform) newWindow(c Chunk, tagIndexAt, tagStartIndex int) {
